@@ -1,6 +1,7 @@
 package main
 
 import (
+	"go/types"
 	"go/ast"
 	"strings"
 )
@@ -142,46 +143,53 @@ func ruleHeader(c *Ctx) {
 	c.Check(okSink, "Serialize:sinks", p.Pos(w), "tags → tag block, values → value block", "tag bytes or value bytes are written to the wrong block writer", "")
 	// ---- reader
 	var rseq []string
-	for _, st := range r.Body.List {
-		ast.Inspect(st, func(n ast.Node) bool {
-			if _, isLoop := n.(*ast.RangeStmt); isLoop {
-				return false
-			}
-			switch x := n.(type) {
-			case *ast.IfStmt:
-				if x.Init != nil {
-					if as, ok := x.Init.(*ast.AssignStmt); ok && len(as.Rhs) == 1 {
-						if call, ok := as.Rhs[0].(*ast.CallExpr); ok {
-							switch p.CalleeName(call) {
-							case "(*bytes.Buffer).ReadByte", "(bytes.Buffer).ReadByte":
-								rseq = append(rseq, "byte")
-							case "encoding/binary.ReadUvarint":
-								// which buffer is resliced with this value?
-								v := p.Str(as.Lhs[0])
-								target := ""
-								ast.Inspect(x, func(m ast.Node) bool {
-									if a2, ok := m.(*ast.AssignStmt); ok && len(a2.Rhs) == 1 {
-										if sl, ok := a2.Rhs[0].(*ast.SliceExpr); ok && sl.High != nil && p.Str(sl.High) == v {
-											target = nospace(p.Str(a2.Lhs[0]))
-										}
-									}
-									return true
-								})
-								rseq = append(rseq, "uvarint→"+target)
-							}
-						}
-					}
-				}
-			case *ast.AssignStmt:
-				if len(x.Rhs) == 1 {
-					if call, ok := x.Rhs[0].(*ast.CallExpr); ok && p.CalleeName(call) == "Serializer.decBlock" && len(call.Args) == 4 {
-						rseq = append(rseq, "block→"+nospace(p.Str(call.Args[1])))
+	// form-independent: every ReadByte / ReadUvarint / decBlock call of the prologue in source order, wherever it is
+	// written (if-initialiser or plain assignment); a uvarint is labelled by the buffer that is resliced to it
+	resliceTarget := func(obj types.Object) string {
+		target := ""
+		ast.Inspect(r.Body, func(m ast.Node) bool {
+			if a2, ok := m.(*ast.AssignStmt); ok && len(a2.Rhs) == 1 && target == "" {
+				if sl, ok := a2.Rhs[0].(*ast.SliceExpr); ok && sl.High != nil {
+					if id, ok := ast.Unparen(sl.High).(*ast.Ident); ok && p.ObjOf(id) == obj {
+						target = nospace(p.Str(a2.Lhs[0]))
 					}
 				}
 			}
 			return true
 		})
+		return target
 	}
+	ast.Inspect(r.Body, func(n ast.Node) bool {
+		if _, isLoop := n.(*ast.RangeStmt); isLoop {
+			return false
+		}
+		if _, isLit := n.(*ast.FuncLit); isLit {
+			return false
+		}
+		as, ok := n.(*ast.AssignStmt)
+		if !ok || len(as.Rhs) != 1 {
+			return true
+		}
+		call, ok := as.Rhs[0].(*ast.CallExpr)
+		if !ok {
+			return true
+		}
+		switch p.CalleeName(call) {
+		case "(*bytes.Buffer).ReadByte", "(bytes.Buffer).ReadByte":
+			rseq = append(rseq, "byte")
+		case "encoding/binary.ReadUvarint":
+			target := ""
+			if id, ok := as.Lhs[0].(*ast.Ident); ok {
+				target = resliceTarget(p.ObjOf(id))
+			}
+			rseq = append(rseq, "uvarint→"+target)
+		case "Serializer.decBlock":
+			if len(call.Args) == 4 {
+				rseq = append(rseq, "block→"+nospace(p.Str(call.Args[1])))
+			}
+		}
+		return true
+	})
 	wantR := []string{"byte", "uvarint→", "uvarint→dst.Tape", "uvarint→dst.Strings.B", "block→dst.Strings.B", "uvarint→dst.Message", "block→dst.Message", "uvarint→s.tagsBuf", "block→s.tagsBuf", "uvarint→s.valuesBuf", "block→s.valuesBuf"}
 	c.Check(strings.Join(rseq, " | ") == strings.Join(wantR, " | "), "Deserialize:sections", p.Pos(r), "version, total, tape, then (size, block) for strings, message, tags, values — each block decoded into the buffer sized by the preceding field",
 		"the reader's section sequence is "+strings.Join(rseq, " | "), "any blob")
